@@ -142,18 +142,20 @@ CLAIMED["C04"] = {
 }
 
 CLAIMED["C06"] = {
-    "text": "Lean stage theorems of translation equivariance, for every integer offset (k, n): cell adjacency and hence "
-            "Span::merge_recursive commute with moving the cells (same groups, same order); Fragment::merge in all its cases "
-            "(collinear touching lines, line+bullet incl. heading and distance thresholds, adjacent cell texts) and hence the "
-            "whole fragment merge_recursive of a scope commute with moving the fragments; all geometric predicates used are "
-            "functions of coordinate differences. The composition over the whole pipeline is not yet one theorem; it is "
-            "checked by the byte-level end-to-end correspondence at offsets up to (400, 200) and by the shift oracle on the "
-            "implementation (svg(shifted) = svg(original) translated, canvas grown).",
+    "text": "Lean theorem whole_middle_equivariant, for every integer offset (k, n), catalogue, cell set and quoted texts: the "
+            "whole middle of the pipeline (endorseAll: span grouping, catalogue circles/arcs, per-cell table fragments, ordered "
+            "fragment buffer, fragment merge, contact grouping, sharp and rounded rectangle endorsement, re-endorsement, "
+            "singles/groups split, quoted texts) applied to the moved cells gives exactly the moved result, element by "
+            "element in the same order. Composed from stage theorems (cell-local lookups see the same neighbourhood; every "
+            "geometric predicate is a function of coordinate differences; Fragment::merge in all cases incl. heading and "
+            "distance thresholds; bounding boxes move with their fragments given the invariant that no polygon is empty, "
+            "decided over the regenerated tables and preserved by every merge). Front end (text -> cells) and back end "
+            "(coordinates offset by scale*(k, 2n), canvas grown) are covered by the byte-level end-to-end correspondence at "
+            "offsets up to (400, 200) and by the shift oracle on the implementation (svg(shifted) = svg(original) translated).",
     "note": "Trusted: Lean kernel (+Mathlib ring); correspondence; f32 absolute-coordinate effects in the implementation "
             "(parry's relative-epsilon point-on-segment test, arc centre ==) are outside the exact model and would surface "
-            "as model/implementation disagreements at large offsets; front end, per-cell fragments, contacts, endorsement "
-            "equivariance not yet proved.",
-    "technique": "Lean 4 proof (equivariance of the greedy loops under translation) + byte-level end-to-end correspondence at large offsets + relational shift oracle",
+            "as model/implementation disagreements at large offsets; front-end and back-end equivariance are not theorems.",
+    "technique": "Lean 4 proof (translation equivariance of the whole middle pipeline, composed from stage theorems) + byte-level end-to-end correspondence at large offsets + relational shift oracle",
     "design_ref": "5 (C06)",
 }
 CLAIMED["C10"] = {
